@@ -81,6 +81,12 @@ inductive Op (α : Type) where
   | setRelated (pairs : List (Int × Int)) (tof : Int) (vals : List α)
   | fill (v : α)
   | fillFrom (vals : List α)
+  /-- one pass of `ProjData::xapyb` / `apply_func` (`sapyb`, `xapyb`, `operator+=` …): the new values, in the order
+      the generic code writes them (TOF, segments increasing, `SegmentBySinogram`) -/
+  | bulk (vals : List α)
+  /-- `ProjData::fill(const ProjData&)` (also behind `ProjDataInMemory(const ProjData&)`, `write_to_file`): the
+      source's values in the order they are written (segments increasing, TOF, `SegmentByView`) -/
+  | fillPd (vals : List α)
 
 /-- the addresses the code writes (transcription of the seek/write pattern) -/
 def Op.addrs {α : Type} (l : Layout) : Op α → Except Err (List Int)
@@ -92,6 +98,8 @@ def Op.addrs {α : Type} (l : Layout) : Op α → Except Err (List Int)
   | .setRelated ps k _ => addrsRelated l ps k
   | .fill _ => addrsFill l
   | .fillFrom _ => addrsAll l
+  | .bulk _ => addrsBulk l
+  | .fillPd _ => addrsFillPd l
 
 /-- the bins the request means -/
 def Op.bins {α : Type} (l : Layout) : Op α → List Bin
@@ -103,6 +111,8 @@ def Op.bins {α : Type} (l : Layout) : Op α → List Bin
   | .setRelated ps k _ => binsRelated l ps k
   | .fill _ => binsFill l
   | .fillFrom _ => binsAll l
+  | .bulk _ => binsBulk l
+  | .fillPd _ => binsFillPd l
 
 def Op.vals {α : Type} (l : Layout) : Op α → List α
   | .setBin _ v => [v]
@@ -113,6 +123,8 @@ def Op.vals {α : Type} (l : Layout) : Op α → List α
   | .setRelated _ _ vs => vs
   | .fill v => List.replicate (binsFill l).length v
   | .fillFrom vs => vs
+  | .bulk vs => vs
+  | .fillPd vs => vs
 
 /-- the request is inside the index ranges -/
 def Op.Valid {α : Type} (l : Layout) : Op α → Prop
@@ -124,6 +136,8 @@ def Op.Valid {α : Type} (l : Layout) : Op α → Prop
   | .setRelated ps k _ => (∀ q ∈ ps, ViewOK l q.1 ∧ SegOK l q.2) ∧ TofOK l k
   | .fill _ => True
   | .fillFrom _ => l.minSeg ≤ 0 ∧ 0 ≤ l.maxSeg
+  | .bulk _ => True
+  | .fillPd _ => True
 
 theorem Op.addrs_eq {α : Type} {l : Layout} (p : l.Pos) (op : Op α) (hv : op.Valid l) :
     op.addrs l = .ok ((op.bins l).map (rawOffset l)) := by
@@ -136,6 +150,8 @@ theorem Op.addrs_eq {α : Type} {l : Layout} (p : l.Pos) (op : Op α) (hv : op.V
   | setRelated ps k vs => exact related_addrs p hv.1 hv.2
   | fill v => exact fill_addrs p
   | fillFrom vs => exact all_addrs p hv.1 hv.2
+  | bulk vs => exact bulk_addrs p
+  | fillPd vs => exact fillPd_addrs p
 
 theorem Op.bins_inRange {α : Type} {l : Layout} (p : l.Pos) (op : Op α) (hv : op.Valid l) :
     ∀ b ∈ op.bins l, InRange l b := by
@@ -148,6 +164,8 @@ theorem Op.bins_inRange {α : Type} {l : Layout} (p : l.Pos) (op : Op α) (hv : 
   | setRelated ps k vs => exact binsRelated_inRange p hv.1 hv.2
   | fill v => exact binsFill_inRange p
   | fillFrom vs => exact binsAll_inRange p hv.1 hv.2
+  | bulk vs => exact binsBulk_inRange p
+  | fillPd vs => exact binsFillPd_inRange p
 
 /-- what the code does to the stream: values are laid down at the addresses of the path, in order;
     a rejected request (`error()`) leaves the stream alone -/
